@@ -376,3 +376,258 @@ def write_xc_core(path, entries, p2m=True, ps=4096, be=False, machine="x86_64", 
             f.write(xc_page(i, e[0], ps))
         f.truncate(max(f.tell(), pages_off + n * ps, pages_off))
     return dict(pages_off=pages_off, map_off=map_off)
+
+
+# ====================================================================== C01 additions
+# Writers for LKCD, SADUMP and s390 dumps.  These take an explicit *image*
+# (dict pfn -> page bytes) so that page contents are arbitrary.
+
+def rle_encode(data):
+    """LKCD run-length encoding exactly as tests/rle.c: compress_rle()/rleop()"""
+    out = bytearray()
+
+    def op(c, rep):
+        ln = min(3, rep + 1 if c == 0 else rep)
+        if ln > 2:
+            out.extend((0, rep, c))
+        elif ln > 1:
+            out.extend((c, c))
+        else:
+            out.append(c)
+    if not data:
+        return b""
+    prev, rep = data[0], 1
+    for cur in data[1:]:
+        if cur != prev or rep == 0xff:
+            op(prev, rep)
+            prev, rep = cur, 1
+        else:
+            rep += 1
+    op(prev, rep)
+    return bytes(out)
+
+
+def rle_decode(src, dstlen):
+    """mirror of uncompress_rle(); returns bytes or None (= -1)"""
+    out = bytearray()
+    i, n = 0, len(src)
+    while i < n:
+        b = src[i]; i += 1
+        if b == 0:
+            if i >= n:
+                return None
+            cnt = src[i]; i += 1
+            if cnt:
+                if dstlen - len(out) < cnt or i >= n:
+                    return None
+                out.extend(bytes([src[i]]) * cnt); i += 1
+                continue
+        if len(out) >= dstlen:
+            return None
+        out.append(b)
+    return bytes(out)
+
+
+def _uts(machine, E=None):
+    names = [b"Linux", b"verif", b"5.4.0-verif", b"#1 SMP", machine.encode(), b"(none)"]
+    return b"".join(u.ljust(65, b"\0") for u in names)
+
+
+LKCD_MAGIC = 0xa8190173618f23ed
+LKCD_RAW, LKCD_COMPRESSED, LKCD_END = 1, 2, 4
+
+
+def write_lkcd(path, stream, ps=4096, version=9, be=False, bits=64, compression=0, machine="x86_64",
+               data_offset=None, end_marker=True, mclx=0):
+    """stream: list of dict(pfn=, data=<page bytes>, kind='raw'|'compressed'|'auto', skip=<unused bytes
+    after the data, counted in dp_size>, flags=<explicit dp_flags>, addr_off=<byte offset inside the page
+    added to dp_address>).  compression: 0 none, 1 RLE, 2 GZIP (header field for v5+; v1..v3 are RLE by
+    definition).  Returns dict(recs=[dict(pfn, desc_off, data_off, size, flags)], end=<offset of END>)."""
+    E = ">" if be else "<"
+    base = version
+    if base < 9:
+        data_offset = 65536                    # LKCD_OFFSET_TO_FIRST_PAGE
+    elif data_offset is None:
+        data_offset = 256 * 1024
+    common = struct.pack(E + "QIIIIQQQ", LKCD_MAGIC, version | mclx, 0, 8, ps, 0, 0, 0)
+    panic = b"verif".ljust(256, b"\0")
+    uts = _uts(machine)
+    if base == 1:
+        hdr = common + struct.pack(E + "III", 0, 0, len(stream)) + panic
+        hdr += (b"\0" * 8 if bits == 32 else b"\0" * 4 + b"\0" * 16) + uts + b"\0" * 2
+    elif base < 8:
+        hdr = common + struct.pack(E + "I", len(stream)) + panic
+        if bits == 32:
+            hdr += b"\0" * 8 + uts + b"\0" * 2 + struct.pack(E + "IIII", 0, compression, 0, 0)
+        else:
+            hdr += b"\0" * 4 + b"\0" * 16 + uts + b"\0" * 2 + struct.pack(E + "QIII", 0, compression, 0, 0)
+    else:
+        hdr = common + struct.pack(E + "I", len(stream)) + panic + b"\0" * 16 + uts
+        hdr += struct.pack(E + "QIIIQ", 0, compression, 0, 0, data_offset)
+    eff = compression if base >= 5 else 1      # v1..v3: RLE
+    body = bytearray()
+    recs = []
+    for rec in stream:
+        data = rec["data"]
+        kind = rec.get("kind", "auto")
+        raw = True
+        blob = data
+        if kind != "raw" and eff in (1, 2):
+            c = rle_encode(data) if eff == 1 else zlib.compress(data, rec.get("level", 6))
+            if kind == "compressed" or len(c) < len(data):
+                blob, raw = c, False
+        flags = rec.get("flags", LKCD_RAW if raw else LKCD_COMPRESSED)
+        skip = rec.get("skip", 0)
+        desc_off = data_offset + len(body)
+        body += struct.pack(E + "QII", rec["pfn"] * ps + rec.get("addr_off", 0), len(blob) + skip, flags)
+        body += blob + b"\0" * skip
+        recs.append(dict(pfn=rec["pfn"], desc_off=desc_off, data_off=desc_off + 16, size=len(blob) + skip,
+                         flags=flags, raw=raw))
+    end = data_offset + len(body)
+    if end_marker:
+        body += struct.pack(E + "QII", 0, 0, LKCD_END)
+    with open(path, "wb") as f:
+        f.write(hdr.ljust(data_offset, b"\0"))
+        f.write(body)
+    return dict(recs=recs, end=end, data_offset=data_offset)
+
+
+# ---------------------------------------------------------------- s390
+S390_MAGIC = 0xa8190173618f23fd
+
+
+def write_s390(path, img, npages, ps=4096, arch=2, hdr_size=4096, tod=0x1234, end_tod=None, mem_pad=0):
+    """img: dict pfn -> bytes; frames without an entry are zero.  arch: 1 = s390 (31-bit), 2 = s390x."""
+    mem_size = npages * ps
+    h1 = struct.pack(">QIIIIQQQI4sQQIIIQBHH", S390_MAGIC, 5, hdr_size, 4, ps, mem_size, 0, mem_size, npages,
+                     b"\0" * 4, tod, 0, arch, 0, arch, mem_size, 0, 1, 1)
+    with open(path, "wb") as f:
+        f.write(h1.ljust(hdr_size, b"\0"))
+        for p in range(npages):
+            f.write(img.get(p, b"\0" * ps))
+        f.write(b"DUMP_END" + struct.pack(">Q", tod + 1 if end_tod is None else end_tod))
+        f.write(b"\0" * mem_pad)
+    return dict(dataoff=hdr_size)
+
+
+# ---------------------------------------------------------------- SADUMP
+SADUMP_CPU_STATE = 1024       # sizeof(struct sadump_smram_cpu_state)
+SADUMP_EFER_OFF = 992         # offsetof(ia32_efer)
+
+
+def _msb0(bits, nbytes):
+    b = bytearray(nbytes)
+    for p in bits:
+        b[p >> 3] |= 0x80 >> (p & 7)
+    return bytes(b)
+
+
+def write_sadump(paths, img, ram=None, max_mapnr=None, kind="single", ndisks=1, cuts=None, bs=4096,
+                 header_version=1, nr_cpus=1, long_mode=True, cpu_extra=0):
+    """img: dict pfn -> page bytes of the dumped frames; ram: frames marked in the first (memory) bitmap.
+    kind: 'single' | 'diskset' | 'media'.  diskset: paths[k] is disk #k+1; `cuts` = how many of the dumped
+    pages (in ascending frame order) each disk holds (default: even split).
+    Returns dict(data_pos=[...per disk], counts=[...], bmp_pos=, block_size=)."""
+    dumped = sorted(img)
+    ram = sorted(set(ram if ram is not None else dumped) | set(dumped))
+    if max_mapnr is None:
+        max_mapnr = (max(ram) + 1) if ram else 1
+    bmp_size = ((max_mapnr + 7) // 8 + bs - 1) // bs * bs
+    guid_sys, guid_set = bytes(range(16)), bytes(range(16, 32))
+    stamp = struct.pack("<HBBBBBBIhBB", 2020, 1, 2, 3, 4, 5, 0, 0, 0, 0, 0)
+
+    def part_header(disk_no, used, vol):
+        h = struct.pack("<IIIIII", 0x75646173, 0x0000706d, 1, 0, 1, 1) + b"\0" * 64
+        h += guid_sys + guid_set + vol + stamp + struct.pack("<IIQ", disk_no, 0, used)
+        assert len(h) == 168
+        out = bytearray(h)
+        m = 0
+        while len(out) < bs:
+            out += struct.pack("<I", m)
+            m = ((m + 7) * 11) & 0xffffffff
+        return bytes(out)
+
+    if kind != "diskset":
+        ndisks = 1
+    if cuts is None:
+        q, r = divmod(len(dumped), ndisks)
+        cuts = [q + (1 if k < r else 0) for k in range(ndisks)]
+    assert sum(cuts) == len(dumped) and len(cuts) == ndisks
+    vols = [bytes([0x20 + k]) * 16 for k in range(ndisks)]
+    info = dict(data_pos=[], counts=list(cuts), block_size=bs)
+    start = 0
+    for k in range(ndisks):
+        mine = dumped[start:start + cuts[k]]
+        start += cuts[k]
+        part_pos = bs if kind == "media" else 0
+        if part_pos and part_pos != 4096:
+            raise ValueError("media backup needs a 4096-byte block")
+        out = bytearray()
+        if kind == "media":
+            out += (guid_sys + guid_set + stamp + bytes([1, 0, 0, 0])).ljust(bs, b"\0")
+        if k > 0:
+            data_pos = bs                                       # partition header + data only
+            used = data_pos + len(mine) * 4096
+            out += part_header(k + 1, used, vols[k])
+        else:
+            hdr_pos = part_pos + bs
+            dsh = b""
+            if kind == "diskset":
+                need = 16 + 32 * ndisks
+                dsh_blocks = (need + bs - 1) // bs
+                dsh = struct.pack("<IIQ", dsh_blocks, ndisks, 0)
+                for v in vols:
+                    dsh += v + struct.pack("<QII", 0, 0, 0)
+                dsh = dsh.ljust(dsh_blocks * bs, b"\0")
+                hdr_pos += len(dsh)
+            cpu_sz = SADUMP_CPU_STATE + cpu_extra
+            sub_size = (4 + nr_cpus * (16 + cpu_sz) + bs - 1) // bs * bs
+            sub = bytearray(sub_size)
+            struct.pack_into("<I", sub, 0, nr_cpus * cpu_sz)
+            for c in range(nr_cpus):
+                # only the last CPU is in long mode: the loader has to look at every CPU state
+                efer = (1 << 10) if (long_mode and c == nr_cpus - 1) else 0
+                struct.pack_into("<Q", sub, 4 + nr_cpus * 16 + c * cpu_sz + SADUMP_EFER_OFF, efer)
+            bmp_pos = hdr_pos + bs + sub_size + bmp_size
+            data_pos = bmp_pos + bmp_size
+            used = data_pos + len(mine) * 4096
+            sh = b"sadump\0\0" + struct.pack("<II", header_version, 0) + stamp
+            sh += struct.pack("<IIIIIIIIIIIIII", 0, 0, bs, 0, sub_size // bs, bmp_size // bs, bmp_size // bs,
+                              max_mapnr & 0xffffffff if header_version else max_mapnr, len(ram), used // bs,
+                              used // bs, 0, nr_cpus, 0)
+            sh += struct.pack("<QQQQ", max_mapnr if header_version else 0, len(ram), used // bs, used // bs)
+            assert len(sh) == 120
+            out += part_header(1 if kind == "diskset" else 0, used, vols[0])
+            out += dsh
+            out += sh.ljust(bs, b"\0")
+            out += sub
+            out += _msb0([p for p in ram if p < max_mapnr], bmp_size)
+            out += _msb0(dumped, bmp_size)
+            info["bmp_pos"] = bmp_pos
+            assert len(out) == data_pos
+        for p in mine:
+            out += img[p]
+        info["data_pos"].append(data_pos)
+        with open(paths[k], "wb") as f:
+            f.write(out)
+    return info
+
+
+def diskdump_sub_header_32(path, ps, be=False, pad=False, vmcoreinfo=b"OSRELEASE=5.4.0-verif\nPAGESIZE=4096\n"):
+    """Rewrite the 32-bit KDUMP sub-header of a file written by write_diskdump(bits=32): store VMCOREINFO inside
+    the sub-header block (where makedumpfile puts it) and, with pad=True, use the layout of 32-bit architectures
+    that align 64-bit fields to 64 bits (kdump_sub_header_32pad, e.g. ARM)."""
+    E = ">" if be else "<"
+    with open(path, "r+b") as f:
+        f.seek(ps)
+        (phys_base, level, split, spfn, epfn, _ov, _sv, on, sn, oe, se, s64, e64, m64) = \
+            struct.unpack(E + "IiiIIQIQIQIQQQ", f.read(80))
+        ov, sv = ps + 512, len(vmcoreinfo)
+        if pad:
+            sub = struct.pack(E + "IiiII4xQI4xQI4xQI4xQQQ", phys_base, level, split, spfn, epfn, ov, sv, on, sn, oe, se,
+                              s64, e64, m64)
+        else:
+            sub = struct.pack(E + "IiiIIQIQIQIQQQ", phys_base, level, split, spfn, epfn, ov, sv, on, sn, oe, se,
+                              s64, e64, m64)
+        f.seek(ps)
+        f.write(sub.ljust(512, b"\0") + vmcoreinfo)
